@@ -225,6 +225,10 @@ class ExecMixin:
             raise OutsideSubset(f"assignment target {type(t).__name__}")
 
     def symbolic_unpack(self, st, v, t):
+        if isinstance(v, Z) and v.t.kind == "ref" and v.t.cls:
+            m = self.classes.get(v.t.cls) or {}
+            if m.get("tuplelike"):
+                return [self.read_field(st, v.e, f, self.field_T(v.t.cls, f)) for f in m["tuplelike"]]
         raise OutsideSubset(f"unpacking of {v!r}")
 
     def assign_subscript(self, st, t, v):
@@ -463,7 +467,7 @@ class ExecMixin:
                 self.oblige(st, name, g, "inv-step")
             raise PathEnd()
         else:
-            st.trail.append(f"loop{ordinal}:exit")
+            st.trail.append(f"loop{ordinal}:exit({ast.unparse(s.iter)[:30]})")
             for name, g in inv_at(n, "inv"):
                 st.assume(g)
 
